@@ -134,6 +134,19 @@ FOREST_VARIANTS = {
 }
 
 
+def continued_on_clone(lines, idx):
+    """is the event at line idx part of an episode that continues on a copy made by Xot::clone?"""
+    k = idx
+    while k >= 0:
+        l = lines[k]
+        if '"op":"reset"' in l:
+            return False
+        if '"op":"clone_store"' in l and json.loads(l).get("b"):
+            return True
+        k -= 1
+    return False
+
+
 def forest_check(prop, tier, seed):
     """The forest engine: C04 / C05 / C06 and, with their own drivers and generators, C10 C11 C12 C15 C18."""
     profile, views, only_ops, extra, full_replay = FOREST_VARIANTS[prop]
@@ -145,7 +158,7 @@ def forest_check(prop, tier, seed):
     cfgname = write_cfg(f"gen_{prop}_mc.cfg", FOREST_CFG.format(
         maxnode=3 if quick else 4, names="Names1" if quick else "Names2", texts="TextsXS", maxtext=2, dump="FALSE",
         invs="Valid RefusalsAreStutters Total RiwIdempotent FrameHolds L2MovesRefine L2CloneRefines", props="PROPERTY StableIds"))
-    r_mc = mc("MCForest.tla", cfgname, workers=12, timeout=3000, tag=prop + "_mc", xmx="16g")
+    r_mc = mc("MCForest.tla", cfgname, workers=12, timeout=3000 if quick else 10800, tag=prop + "_mc", xmx="16g")
     os.remove(os.path.join(vlib.SPEC, cfgname))
     mcs.append(r_mc)
     rnd = random.Random(seed)
@@ -166,7 +179,7 @@ def forest_check(prop, tier, seed):
                 st2 = json.loads(json.dumps(st))
                 st2["n"][rnd.choice(texts)]["t"] = []
                 extra_states.append(st2)
-        chosen = chosen + extra_states + [gen.sandwich_forest(rnd).state() for _ in range(40 if quick else 600)]
+        chosen = chosen + extra_states + [gen.sandwich_forest(rnd).state() for _ in range(80 if quick else 800)]
         sp = os.path.join(d, "states.ndjson")
         with open(sp, "w") as f:
             for st in chosen:
@@ -201,6 +214,17 @@ def forest_check(prop, tier, seed):
         mcs.append(r_g)
         rnd.shuffle(gstates)
         gchosen = gstates[: (1900 if quick else 50000)]
+        if extra == "ws":
+            # every second layout: the elements that carry xml:space also declare a prefix (namespace nodes are stored in
+            # front of attribute nodes, so whoever looks for the attribute has to get past them)
+            for st in gchosen[::2]:
+                ns = st["n"]
+                for i in range(len(ns)):
+                    nd = ns[i]
+                    if nd["k"] == "elem" and any(ns[c - 1]["k"] == "attr" and ns[c - 1]["ln"] == "space" and ns[c - 1]["ns"] == gen.XMLNS for c in nd["c"]):
+                        for px in (["p", "q"] if rnd.random() < 0.3 else ["p"]):
+                            ns.append(gen.node("nsn", p=i + 1, ln=px, u="u1"))
+                            nd["c"].insert(0, len(ns))
         if extra != "ws":
             # deeper and wider declaration layouts than the enumerated ones: random namespace-rich chains and bushes
             # (two namespaces, three prefixes, declarations shadowed several levels down), the calls on every node
@@ -226,6 +250,12 @@ def forest_check(prop, tier, seed):
         dargs += ["--views", "--maxnodes", "14"]
     vlib.run_harness(exe, dargs, timeout=3600)
     traces.append(("drive", dp))
+    if prop == "C04":
+        # histories around the xml:id index of parsed documents: elements with an ID removed, their arena slots reused by new
+        # nodes, those attached under the same document (xml_id_node must never hand out the removed node)
+        dp2 = os.path.join(d, "drive_xmlid.ndjson")
+        vlib.run_harness(exe, ["forest-drive", "--seed", str(seed + 7), "--episodes", str(120 if quick else 3000), "--len", "40", "--out", dp2, "--profile", "xmlid"], timeout=3600)
+        traces.append(("drive-xmlid", dp2))
     # 4. validate and collate
     violations, known, notes = [], {}, 0
     for bp in bf_paths:
@@ -242,6 +272,9 @@ def forest_check(prop, tier, seed):
             if c:
                 classes.add(c)
         for rj in v["rejects"]:
+            if rj["prop"] != prop and prop == "C12" and not rj["known"] and continued_on_clone(v["lines"], rj["line"]):
+                # the copy made by Xot::clone is a store like its source: a call that deviates from L1 only there is C12's
+                rj = dict(rj, prop="C12", detail=["after Xot::clone the copy behaves differently (deviation from L1 under %s)" % rj["prop"], rj["detail"]])
             if rj["prop"] != prop:
                 notes += 1
                 continue
@@ -349,6 +382,11 @@ def live_ids(st):
     return [i + 1 for i, x in enumerate(st["n"]) if x["k"] != "rm"]
 
 
+STRUCT_OPS = ["append", "prepend", "insert_before", "insert_after", "any_append", "append_attribute_node", "append_namespace_node", "replace", "detach", "remove",
+              "element_unwrap", "element_wrap", "clone_node", "riw", "append_text", "text_content_set", "text_set", "set_attribute", "remove_attribute", "set_namespace",
+              "remove_namespace"]
+
+
 def observer_check(prop, tier, seed):
     """C07 / C09 / C13: read-only APIs compared, node by node, with the operators of XotTree."""
     import gen
@@ -374,6 +412,12 @@ def observer_check(prop, tier, seed):
             pairs = [[a, b] for a in L for b in L] if prop == "C13" else []
             jobs.append({"st": st, "what": what, "pfx": PFX, "uris": URIS, "pairs": pairs, "ign": IGN})
             nsmall += 1
+            if prop == "C07":
+                # the same forest after one or two manipulation calls (every kind of call equally often): the read-only APIs
+                # must describe the tree the crate has made of it
+                for _ in range(3):
+                    jobs.append({"st": st, "what": what, "pfx": PFX, "uris": URIS, "pairs": [], "ign": IGN, "steps": rnd.choice([1, 1, 2]), "uniform": True, "names": STRUCT_OPS, "seed": rnd.randrange(1 << 30)})
+                    nsmall += 1
     if prop == "C07":
         # every ordered tree shape with up to 7 nodes (depth the 4-id forests cannot have), laws + iterator transcriptions
         shapes, r_sh = dump_states("MCShape.tla", "SPECIFICATION Spec\nCONSTANTS\n  MaxN = %d\n  Dump = TRUE\nINVARIANTS ValidShape L2AxesRefine LawsHold FollowingPrecedingConverse TraverseConsistent LevelOrderIsPermutation DocOrderTotal DumpState\nCHECK_DEADLOCK FALSE\n" % (7 if quick else 8), prop + "_shape")
@@ -405,11 +449,35 @@ def observer_check(prop, tier, seed):
             # near-duplicates: copy a subtree and change exactly one feature (or none)
             elems = [i + 1 for i, x in enumerate(f.n) if x["k"] in ("elem", "doc")]
             src = rnd.choice(elems)
+            if k % 5 == 2:
+                # make sure there is a processing instruction with data, as a child of src and as a pair of its own
+                f.add(gen.node("pi", ln="a", t=gen.cps("Data x"), d=True), src)
+            wide = k % 5 == 3 and f.n[src - 1]["k"] == "elem"
+            if wide:
+                # an element with 9 to 12 attributes against a copy that has one more (or one renamed): code that switches
+                # its strategy with the number of entries must still count them
+                have = {(f.n[c - 1]["ns"], f.n[c - 1]["ln"]) for c in f.n[src - 1]["c"] if f.n[c - 1]["k"] == "attr"}
+                pool = [(u, l) for u in gen.NSS for l in "defghijk" if (u, l) not in have]
+                for key in rnd.sample(pool, max(0, rnd.randint(9, 12) - len(have))):
+                    f.add(gen.node("attr", ns=key[0], ln=key[1], t=gen.cps(rnd.choice(["", "v", "w"]))), src)
             cp, mp = gen.copy_subtree(f, src)
-            gen.mutate(f, cp, rnd)
+            if wide:
+                if rnd.random() < 0.7:
+                    f.add(gen.node("attr", ns="", ln="extra", t=gen.cps("v")), cp)
+                else:
+                    a = rnd.choice([c for c in f.n[cp - 1]["c"] if f.n[c - 1]["k"] == "attr"])
+                    f.n[a - 1]["ln"] = "renamed"
+            elif k % 5 == 2:
+                pis = [b for a, b in mp.items() if f.n[b - 1]["k"] == "pi" and f.n[b - 1]["d"]]
+                tgt = f.n[pis[-1] - 1]
+                tgt["t"] = [c - 32 if 97 <= c <= 122 else c for c in tgt["t"]] if k % 2 == 0 else tgt["t"] + [32]
+            else:
+                gen.mutate(f, cp, rnd)
             cp2, mp2 = gen.copy_subtree(f, cp)
             if rnd.random() < 0.5:
                 gen.mutate(f, cp2, rnd)
+            for a, b in [(a, b) for a, b in mp.items() if f.n[a - 1]["k"] == "pi"][:3]:
+                pairs += [[a, b], [b, a]]
             for a, b in list(mp.items())[:12]:
                 b2 = mp2.get(b)
                 pairs += [[a, b], [b, a], [a, a]] + ([[b, b2], [a, b2], [b2, a]] if b2 else [])
@@ -418,6 +486,15 @@ def observer_check(prop, tier, seed):
                 pairs.append([rnd.choice(L), rnd.choice(L)])
         jobs.append({"st": f.state(), "what": what, "pfx": PFX, "uris": URIS, "pairs": pairs, "ign": IGN})
         nrand += 1
+        if prop == "C07":
+            # the same forest after a few manipulation calls: trees the crate has produced itself (a random history, and
+            # twice one or two calls that change the structure, every kind of call equally often)
+            if k % 2 == 0:
+                jobs.append({"st": f.state(), "what": what, "pfx": PFX, "uris": URIS, "pairs": [], "ign": IGN, "steps": rnd.choice([1, 2, 4, 8]), "seed": rnd.randrange(1 << 30)})
+                nrand += 1
+            for _ in range(2):
+                jobs.append({"st": f.state(), "what": what, "pfx": PFX, "uris": URIS, "pairs": [], "ign": IGN, "steps": rnd.choice([1, 1, 2]), "uniform": True, "names": STRUCT_OPS, "seed": rnd.randrange(1 << 30)})
+                nrand += 1
     rnd.shuffle(jobs)   # balance the shards
     jp = os.path.join(d, "jobs.ndjson")
     with open(jp, "w") as fh:
@@ -436,6 +513,8 @@ def observer_check(prop, tier, seed):
     for rj in v["rejects"]:
         if rj["prop"] == "TOOL":
             raise ToolError(f"generated state rejected as input: {rj['detail']}")
+        if rj["prop"] == "STRUCT":
+            rj = dict(rj, prop=prop)
         if rj["prop"] == "XAPI":
             # value / type accessors outside the listed properties: noted, never a violation of this property
             if other < 3:
@@ -507,6 +586,11 @@ def small_docs(X):
                  "attrs": [("u1", "b", [118]), ("u2", "c", [119]), (X.XMLNS, "id", X.cps("i1"))],
                  "kids": [{"ns": "", "ln": "b", "decls": [("", "")], "attrs": [], "kids": [("text", [120, 10, 121])]},
                           {"ns": "u2", "ln": "c", "decls": [("p", "u2")], "attrs": [("u2", "a", [49])], "kids": []}]}})
+    # mixed content: character data on both sides of a comment / PI / element / CDATA-only run inside one element
+    T = lambda s: ("text", X.cps(s))
+    for kids in ([T("x"), ("comm", [99]), T("y")], [T("x"), ("pi", "pa", [100]), T("y")], [T("x"), ("comm", []), ("pi", "pb", None), T("y z")],
+                 [("comm", [99]), T("x"), ("comm", [100])], [T("a\nb"), {"ns": "", "ln": "b", "decls": [], "attrs": [], "kids": []}, T("c"), ("comm", [45, 120]), T("d")]):
+        docs.append({"before": [], "after": [], "root": {"ns": "", "ln": "a", "decls": [], "attrs": [], "kids": kids}})
     return docs
 
 
@@ -533,7 +617,9 @@ def parser_jobs(prop, tier, seed):
 
     def add(mode, toks, expect, dmg="", ids=(), encs=()):
         jobs.append({"mode": mode, "text": X.text_of(toks), "toks": toks, "hastoks": True, "expectwf": expect, "dmg": dmg,
-                     "encs": list(encs), "idq": [list(i) for i in ids] + [X.cps("nope")]})
+                     "encs": list(encs), "idq": [list(i) for i in ids] + [X.cps("nope")],
+                     # the manipulation API's consolidation switch is none of the parser's business
+                     "consoff": len(jobs) % 5 == 3})
 
     # spec -> code: enumerate every spelling of tiny documents, one family of choices at a time
     families = [{"char", "cdata", "split", "splitat", "cdataeol"}, {"quote", "ws", "eq", "endws", "empty"}, {"xmldecl", "topws", "interleave", "interleave2", "prefix", "idpad", "bom"}]
@@ -591,7 +677,7 @@ def parser_jobs(prop, tier, seed):
             label = rnd.choice(["ISO-8859-1", "iso-8859-1", "windows-1252"])
             try:
                 ltoks = X.render_doc(ldoc, ch, "doc", encoding=label)
-                if any(c > 255 for c in X.text_of(ltoks)):
+                if any(c > 255 or 0x80 <= c <= 0x9F for c in X.text_of(ltoks)):
                     raise ValueError("not expressible in a single-byte encoding (a prefix or name outside Latin-1)")
                 j = {"mode": "doc", "text": X.text_of(ltoks), "toks": ltoks, "hastoks": True, "expectwf": "yes", "dmg": "", "encs": ["latin1"], "idq": [X.cps("nope")], "strskip": False}
                 jobs.append(j)
@@ -807,7 +893,15 @@ def ser_check(prop, tier, seed):
         states, r_dump = forest_states(tier, seed, prop)
         mcs.append(r_dump)
         rnd.shuffle(states)
-        for k, st in enumerate(states[: (400 if quick else 5200)]):
+        sel = states[: (400 if quick else 5200)]
+        emptied = []
+        for st in sel[: (150 if quick else 2000)]:
+            texts = [i for i, nd in enumerate(st["n"]) if nd["k"] == "text" and nd["t"]]
+            if texts:
+                st2 = json.loads(json.dumps(st))
+                st2["n"][rnd.choice(texts)]["t"] = []          # an explicitly created empty text node has its event too
+                emptied.append(st2)
+        for k, st in enumerate(sel + emptied):
             for i, nd in enumerate(st["n"]):
                 if nd["k"] in ("doc", "elem", "text", "comm", "pi"):
                     j = {"st": st, "root": i + 1, "frag": False, "what": what}
@@ -942,7 +1036,9 @@ def intern_check(prop, tier, seed):
 
 
 HTML_CFG = "SPECIFICATION Spec\nCONSTANTS\n  Dump = TRUE\n  Full = {full}\nINVARIANTS ValidInput DumpState\nCHECK_DEADLOCK FALSE\n"
-HTML_NAMES = ["br", "BR", "Br", "img", "hr", "span", "em", "pre", "textarea", "div", "p", "table", "zzz", "script", "style", "SCRIPT", "svg", "math", "title", "input", "li"]
+HTML_NAMES = ["br", "BR", "Br", "img", "hr", "span", "em", "pre", "textarea", "div", "p", "table", "zzz", "script", "style", "SCRIPT", "svg", "math", "title", "input", "li",
+              "xmp", "iframe", "noembed", "noframes", "plaintext", "XMP", "noscript",
+              "lin\u212a", "trac\u212a", "LIN\u212a"]      # U+212A KELVIN SIGN is a name character whose Unicode lower case is ASCII k: HTML matches names ASCII-case-insensitively only      # raw text in a browser, ordinary escaped text for the serialiser
 HTML_NSS = ["", "http://www.w3.org/1999/xhtml", "http://www.w3.org/1998/Math/MathML", "http://www.w3.org/2000/svg", "u1"]
 
 
@@ -1004,6 +1100,11 @@ def html_check(prop, tier, seed):
                 nd["ns"] = ""
                 if nd["d"]:
                     nd["t"] = gen.cps(rnd.choice(["d", "a>b", "x y"]))
+        # the xml prefix declared explicitly (legal, and never written): on an inner element, possibly its only declaration
+        if k % 6 == 1:
+            inner = [i + 1 for i, nd in enumerate(f.n) if nd["k"] == "elem" and nd["p"] and not any(f.n[c - 1]["k"] == "nsn" and f.n[c - 1]["ln"] == "xml" for c in nd["c"])]
+            for t in rnd.sample(inner, min(len(inner), 2)):
+                f.add(gen.node("nsn", ln="xml", u=gen.XMLNS), t)
         # real XHTML documents: a default declaration for the XHTML namespace on the top element
         if k % 3 == 0:
             tops = [i + 1 for i, nd in enumerate(f.n) if nd["k"] == "elem" and (nd["p"] == 0 or f.n[nd["p"] - 1]["k"] == "doc")]
@@ -1139,6 +1240,7 @@ def random_program(D, rnd):
     n = len(D)
     made = [0] * (n + 1)
     att = set()
+    pieces = {}
     ops = []
     count = 0
     normal = lambda t: D[t - 1]["k"] not in ("attr", "nsn")
@@ -1171,6 +1273,9 @@ def random_program(D, rnd):
                     cands.append(("attach", t, "insert_before"))
                 if k > 0 and s[k - 1] in att:
                     cands.append(("attach", t, "insert_after"))
+        for t in list(pieces):
+            if t in att:
+                cands.append(("piece2", t, None))
         if not cands:
             break
         kind, t, how = rnd.choice(cands)
@@ -1183,11 +1288,31 @@ def random_program(D, rnd):
             elif nd["k"] == "elem":
                 ops.append(ev("new_element", [], ns=nd["ns"], ln=nd["ln"]))
             elif nd["k"] == "text":
-                ops.append(ev("new_text", [], s=list(nd["t"])))
+                if len(nd["t"]) >= 2 and rnd.random() < 0.35:
+                    # the text is built in two pieces: the second one is put next to the first later on and merges into it
+                    cut = rnd.randrange(1, len(nd["t"]))
+                    ops.append(ev("new_text", [], s=list(nd["t"][:cut])))
+                    pieces[t] = list(nd["t"][cut:])
+                else:
+                    ops.append(ev("new_text", [], s=list(nd["t"])))
             elif nd["k"] == "comm":
                 ops.append(ev("new_comment", [], s=list(nd["t"])))
             else:
                 ops.append(ev("new_pi", [], ln=nd["ln"], s=list(nd["t"]), b=bool(nd["d"])))
+        elif kind == "piece2":
+            # the rest of a text node: a new text node placed directly behind the first piece (which absorbs it), either
+            # after that piece or before the nearest sibling already attached behind it
+            count += 1
+            ops.append(ev("new_text", [], s=pieces.pop(t)))
+            s = sibs(t)
+            k = s.index(t)
+            later = [x for x in s[k + 1:] if x in att]
+            if later and rnd.random() < 0.5:
+                ops.append(ev("insert_before", [made[later[0]], count]))
+            elif not later and rnd.random() < 0.4:
+                ops.append(ev("append", [made[nd["p"]], count]))
+            else:
+                ops.append(ev("insert_after", [made[t], count]))
         elif kind == "setabn":
             count += 1
             made[t] = count
